@@ -25,7 +25,7 @@ type c19Case struct {
 	Backend  string   `json:"backend"`
 }
 
-var c19Policies = []string{"vary-star", "vary-xa-star", "vary-xa", "vary-alternate-ab", "vary-alternate-none", "no-vary", "validate-each-round", "swr-each-round", "vary-star-validate", "status-alternate", "vary-alternate-xa-star"}
+var c19Policies = []string{"vary-star", "vary-xa-star", "vary-xa", "vary-alternate-ab", "vary-alternate-none", "no-vary", "validate-each-round", "swr-each-round", "vary-star-validate", "status-alternate", "vary-alternate-xa-star", "vary-inm"}
 
 func genC19(r *rand.Rand) c19Case {
 	c := c19Case{U: 1 + r.IntN(3), Policy: pick(r, c19Policies), DtS: pick(r, []float64{0, 1, 2, 5}), Backend: pick(r, []string{"mem", "mem", "mem", "fs"})}
@@ -70,6 +70,9 @@ func c19Vary(policy string, k int) (vary []string, distinct int) {
 		return [][]string{{"X-A"}, nil}[k%2], 2
 	case "vary-alternate-xa-star":
 		return [][]string{{"X-A"}, {"*"}}[k%2], 2
+	case "vary-inm":
+		// varies on a field the cache itself adds to its validation requests
+		return []string{"If-None-Match, X-A"}, 1
 	}
 	return nil, 1
 }
@@ -131,6 +134,9 @@ func c19Run(r *run.Runner, c c19Case) {
 			if uc.Conditional() && k%2 == 0 {
 				return Render(&RespSpec{Status: 304, ETag: `"e"`, Vary: vary}, uc.Enter, uc.Serial)
 			}
+		case "vary-inm":
+			rs.CC = []string{"max-age=0"}
+			rs.ETag = fmt.Sprintf(`"e%d"`, k) // a new validator on every reply
 		case "vary-alternate-xa-star":
 			rs.CC = []string{"max-age=0"} // every request goes to the origin; the reply's Vary alternates
 			rs.ETag = ""
@@ -231,6 +237,9 @@ func TestC19Invalidation(t *testing.T) {
 			"location": pick(rng, []string{"", "/other", "http://a.example/other", "http://A.EXAMPLE:80/other#x"}), "loc_header": pick(rng, []string{"Location", "Content-Location"}),
 			"spelling": rng.IntN(len(fuzzSpellings)), "validated_before": chance(rng, 0.3),
 			"external_delete": chance(rng, 0.3), "nonascii": pick(rng, []string{"", "", "/caf%C3%A9", "/q%E9"}),
+			// a reload of one variant is answered with another Vary field: the
+			// response changes its id, its old entry must not stay behind
+			"vary_changed_reload": chance(rng, 0.3),
 		}
 		r.Begin(i, c)
 		fail := r.Bubble(func() {
@@ -242,12 +251,15 @@ func TestC19Invalidation(t *testing.T) {
 					}
 					return Render(&rs, uc.Enter, uc.Serial)
 				}
-				if uc.Conditional() {
+				if uc.Conditional() && !strings.Contains(req.Header.Get("Cache-Control"), "no-cache") {
 					return Render(&RespSpec{Status: 304, ETag: `"e"`}, uc.Enter, uc.Serial)
 				}
 				var vary []string
 				if v := c["vary"].(string); v != "" {
 					vary = []string{v}
+				}
+				if strings.Contains(req.Header.Get("Cache-Control"), "no-cache") && c["vary"].(string) != "*" {
+					vary = []string{"X-C"} // the reload's reply varies on something else
 				}
 				return Render(&RespSpec{Status: 200, CC: []string{"max-age=10"}, ETag: `"e"`, Vary: vary, BodySize: 5}, uc.Enter, uc.Serial)
 			}})
@@ -263,6 +275,14 @@ func TestC19Invalidation(t *testing.T) {
 			if c["validated_before"].(bool) {
 				time.Sleep(20 * time.Second)
 				w.Do(sim.ReqSpec{URL: "http://a.example" + na + "/r1", Header: map[string][]string{"X-A": {"0"}, "X-B": {"0"}}})
+			}
+			if c["vary_changed_reload"].(bool) {
+				w.Do(sim.ReqSpec{URL: "http://a.example" + na + "/r1", Header: map[string][]string{"X-A": {"0"}, "X-B": {"0"}, "Cache-Control": {"no-cache"}}})
+				// (what the reload replaced is unreachable from now on: it counts
+				// against the footprint right away)
+				if n := len(w.Store.Footprint()); n > c["variants"].(int)+1+map[bool]int{false: 0, true: c["variants"].(int) + 1}[c["location"].(string) != ""] {
+					r.Violation("keys-exceed-bound", "after-vary-changed-reload", fmt.Sprintf("after a reload whose reply changed the Vary field the store holds %d keys for %d variants: %v", n, c["variants"], w.Store.FootprintKeys()), exSummaries(w))
+				}
 			}
 			if c["external_delete"].(bool) {
 				// one stored response disappears behind the cache's back (maintenance API, clean-up job)
